@@ -70,7 +70,10 @@ def is_opt(t):
 
 def _tname(t):
     if is_opt(t):
-        return f"(option {_tname(t[1])})"
+        inner = _tname(t[1])
+        if " " in inner and not inner.startswith("("):
+            inner = f"({inner})"
+        return f"(option {inner})"
     if isinstance(t, tuple):
         return "(" + " * ".join(_tname(x) for x in t) + ")"
     if t == "list":      # a row of a constant table held in a local variable (C07: months_offsets = MONTHS_OFFSETS[leap])
